@@ -338,7 +338,7 @@ def stage_valgrind(st, prop, tier, seed, say):
     for (start, count), (rc, err) in results:
         out["evaluations"] += count
         if rc is None:
-            out["machinery"].append("valgrind block %d timed out" % start)
+            out["machinery"].append("valgrind block %d given up: %s" % (start, err))
             continue
         if rc not in (0, 99):
             out["machinery"].append("valgrind block %d: rc=%s %s" % (start, rc, (err or "")[-500:]))
